@@ -324,10 +324,12 @@ func ruleAlloc(p *Prog, r *Report, c allocCfg) {
 
 func runC09(p *Prog, r *Report) {
 	recExplain(r)
-	ruleRec(p, r, 11, nil)
+	ruleRec(p, r, 6, nil)
 	r.Explain = append(r.Explain, "R-ALLOC: every make in the font-reading packages whose size has, in its backward slice (arithmetic, wide conversions, phis), a 32/64-bit value read from the file (binary.*.Uint32/64, wide fields of parsed structures) is guarded by a comparison on that value whose other edge returns a non-nil error; the capacity idiom `if cap(dst) < n { dst = make(n) }` is not a guard. Sizes that are 16-bit by type are bounded by type and are not instances.")
 	ruleAlloc(p, r, allocCfg{pkgs: []string{"font/opentype", "font/opentype/tables", "font/cff", "font/cff/interpreter", "font", "fontscan"},
 		dataPkgs: []string{"font/opentype", "font/opentype/tables", "font/cff"}, floor: 10})
+	r.Explain = append(r.Explain, "R-LOOP: in the font-reading packages, every loop whose next position is taken from the data (a header phi re-assigned on the back edge from a decoded or loaded value that is not an arithmetic step of the loop's own variables, and used as index/key/bound inside the loop) has a counted exit — a cycle of links in a file cannot keep it running.")
+	ruleLoop(p, r, []string{"font", "font/opentype", "font/opentype/tables", "font/cff", "font/cff/interpreter"})
 	r.Explain = append(r.Explain, "R-COUNT: for every signed integer parameter that sizes a make in its function without a sign test there, every in-module call site passes an argument that is provably non-negative (conversion from an unsigned type, len/cap, constants, sums/products of those, a difference guarded by the comparison that makes it non-negative, or a parameter for which the same holds at all its call sites).")
 	ruleCount(p, r, []string{"font/opentype/tables", "font/opentype", "font/cff", "font"}, 10)
 	r.Assumptions = append(r.Assumptions,
@@ -342,6 +344,7 @@ func controlsC09(cp *Prog, r *Report) {
 		ruleAlloc(cp, cr, allocCfg{pkgs: []string{"rd"}, dataPkgs: []string{"rd"}, floor: 2})
 	}, "(*rd.Loader).tableBad", "rd.parseBad")
 	expectControl(r, "R-COUNT", func(cr *Report) { ruleCount(cp, cr, []string{"rd"}, 3) }, "rd.parseN(count)<-rd.callBadDiff")
+	expectControl(r, "R-LOOP", func(cr *Report) { ruleLoop(cp, cr, []string{"rd"}) }, "rd.followBad/loop@g")
 }
 
 // ---- R-COUNT ------------------------------------------------------------------------------------------------------
